@@ -323,6 +323,65 @@ theorem check_new_term_no_election_rejects (c : Chain) (f : Fault) (h term pos b
   simp only [h4', if_false, herr] at h1
   cases h1
 
+/-! ### the full clause, and where the code falls short of it (known finding `tdpos-accept-backdated-term`) -/
+
+/-- the proposers the chain's own history names for a block on top of the tip stamped in `term`: those of the
+tip's term if it continues it; those the term was opened under if the ledger already holds a block of it; a
+fresh election from the tip if the block opens the term -/
+def entitledSet (c : Chain) (term : Nat) : Res (List Nat) :=
+  if c.terms[c.tip]? == some term then calHis c .none c.tip
+  else
+    match (List.range (c.tip + 1)).find? (fun j => decide (c.start ≤ j) && (c.terms[j]? == some term)) with
+    | some j => calHis c .none j
+    | none => calTopK c .none c.tip
+
+/-- full strength: every accepted block on top of the tip comes from the proposer its term's own election names -/
+def accepted_is_entitled_statement : Prop :=
+  ∀ (c : Chain) (h term pos bp p : Nat), c.start + 3 ≤ h → c.tip ≤ h →
+    check c .none h term pos bp p = .accept → ∃ vals, entitledSet c term = .ok vals ∧ vals[pos]? = some p
+
+private def chBack : Chain :=
+  ⟨1, [0, 1], 2, 2, [0, 1, 1, 1, 1, 2], [(1, .cands [(2, .ballots [5]), (3, .ballots [4])])]⟩
+
+/-- **false of the code as it is**: blocks 1..4 are term 1 (initial proposers 0, 1), block 5 opened term 2 and
+the ballots recorded in block 1 elect 2, 3.  A block on top of the tip stamped in slot (term 1, pos 0) - the slot
+of proposer 0 - is accepted from 2: `CalOldProposers` elects anew from the tip instead of looking term 1 up. -/
+theorem accepted_is_entitled_counterexample : ¬ accepted_is_entitled_statement := by
+  intro h
+  obtain ⟨vals, h1, h2⟩ := h chBack 6 1 0 0 2 (by decide) (by decide) (by decide)
+  have he : entitledSet chBack 1 = .ok [0, 1] := by decide
+  rw [he] at h1
+  cases h1
+  revert h2
+  decide
+
+/-- **true whenever the block's term is the tip's or is not yet on the ledger** (the block continues the
+current term or opens a new one) - the missing hypothesis is exactly "the block is not stamped in a term that
+is over". -/
+theorem accepted_is_entitled_partial (c : Chain) (h term pos bp p : Nat) (hh : c.start + 3 ≤ h)
+    (htip : c.tip ≤ h)
+    (hterm : c.terms[c.tip]? = some term ∨
+      (List.range (c.tip + 1)).find? (fun j => decide (c.start ≤ j) && (c.terms[j]? == some term)) = none)
+    (hacc : check c .none h term pos bp p = .accept) :
+    ∃ vals, entitledSet c term = .ok vals ∧ vals[pos]? = some p := by
+  obtain ⟨-, -, -, vals, h1, h2⟩ := (check_accept_iff ..).mp hacc
+  refine ⟨vals, ?_, h2⟩
+  unfold calOld at h1
+  have h1' : ¬ h < c.start + 3 := by omega
+  have h2' : ¬ h < c.tip := by omega
+  simp only [h1', h2', if_false] at h1
+  unfold entitledSet
+  by_cases ht : c.terms[c.tip]? = some term
+  · have : (c.terms[c.tip]? == some term) = true := by simp [ht]
+    simp only [this, if_true] at h1 ⊢
+    exact h1
+  · have hb : (c.terms[c.tip]? == some term) = false := by simpa using ht
+    simp only [hb] at h1 ⊢
+    rcases hterm with h | h
+    · exact absurd h ht
+    · simp only [h]
+      exact h1
+
 /-! non-vacuity: two proposers; candidates 2 (5 ballots), 3 (4) and 0 (1) recorded in block 1; ledger of five
 blocks of term 1; a block of height 5 in term 2 opens the new term under the snapshot of block 1. -/
 private def chEx : Chain :=
